@@ -131,7 +131,7 @@ def mc_codec(ctx, k, part="both"):
         pair, kk = mut, 5
     c = dict(k)
     full = [n for n in names if n not in MC_HUGE] if ctx.quick else names
-    c.update({"Names": vf.tla_set(mut), "PairNames": vf.tla_set(pair), "FullNames": vf.tla_set(full), "K": str(kk)})
+    c.update({"Names": vf.tla_set(mut), "PairNames": vf.tla_set(pair), "FullNames": vf.tla_set(full), "K": str(kk), "Universe": '"protocol"'})
     cfg = vf.cfg_text(constants=c, spec="Spec", invariants=["InvRoundTrip", "InvPrefixFree", "InvStrict", "InvRejected", "InvPadBits", "InvValid"])
     return vf.mc(ctx, "MC_Codec", cfg, workers=4 if ctx.quick else 8, timeout=1500, heap="4g" if ctx.quick else "8g", coverage=False)
 
